@@ -390,7 +390,8 @@ def determinism(chk, prog):
             entry = cls.lookup(m)
             if entry is None:
                 continue
-            reach = reachable(entry, follow=lambda callee, _p=None: True, skip_edges=OPTION_EDGES)
+            # random_attitudes is only called under an explicit option (random=True / integer argument) that no filter passes
+            reach = reachable(entry, follow=lambda callee, _p=None: True, skip_conditional_to={"random_attitudes"})
             n += len(reach)
             for ref, (f, path) in reach.items():
                 for c in ast.walk(f.node):
